@@ -1,0 +1,7 @@
+//go:build !verif
+
+package dbkit
+
+// vhook marks the points at which a token changes hands. It does nothing unless
+// the package is built with the "verif" tag.
+func vhook(string) {}
